@@ -19,7 +19,7 @@ Fixpoint hl (p : pc) : nat :=
 Fixpoint isP (p : pc) : nat :=
   match p with
   | PSel | PLk _ | PNr _ _ | PPing _ _ | PUse _ _ | PUseSend _ _ | PFv _ | PFvR _ _ _ | PExp _ _ | PExpSend _ _
-  | PWait _ | PErr _ | PFlt _ | PUfs _ _ | PUfsR _ _ _ | PNs _ | PLd1 _ _ | PLd2 _ _ => 1
+  | PWait _ _ | PErr _ | PFlt _ | PUfs _ _ | PUfsR _ _ _ | PNs _ | PLd1 _ _ | PLd2 _ _ => 1
   | TEntry p' => isP p'
   | _ => 0
   end.
